@@ -522,7 +522,7 @@ def run_one_e2e(case):
                 cmd = list(ts) + ([lib.BRUSH, "--norc", "--noprofile", "--no-config", "-i", "--input-backend", "minimal"]
                                   if which == "brush" else [lib.BASH, "--norc", "--noprofile", "-i"])
             try:
-                p = subprocess.run(cmd, input=text.encode() if mode in ("stdin", "inter") else None,
+                p = lib.sp_run(cmd, input=text.encode() if mode in ("stdin", "inter") else None,
                                    stdin=None if mode in ("stdin", "inter") else subprocess.DEVNULL,
                                    stdout=subprocess.PIPE, stderr=subprocess.PIPE, env=env, timeout=30, cwd=d)
                 res.append({"rc": p.returncode, "out": p.stdout.decode("utf-8", "replace"),
